@@ -580,3 +580,38 @@ T("C09", "twin-seek-end-anchored-at-end-measured-by-constructor", F, "", "",
   edits=[(F, INIT, "        self._raw_end = self.fh.seek(0, io.SEEK_END)\n" + INIT),
          (F, SEEK, SEEK.replace("        return self.fh.seek(offset, whence)\n",
                                 "        if whence == io.SEEK_END:\n            return self.fh.seek(self._raw_end + offset)\n        return self.fh.seek(offset, whence)\n"))])
+
+# ------------------------------------------------------------------------------------------------ wave 7
+# R2: the give-back puts the file at <position before the reads> + n - right only when at least n bytes were consumed.  With n > 0 and
+# fewer than n bytes consumed (data ends early, read at / beyond EOF) it must not be executed.
+GUARD = "        if n > 0 and len(data) > n:\n"
+M("C09", "giveback-guard-loses-surplus-test", F, GUARD, "        if n > 0:\n", "C09.R2")
+M("C09", "giveback-whenever-length-differs", F, GUARD, "        if n > 0 and len(data) != n:\n", "C09.R2")
+M("C09", "list-join-giveback-whenever-total-differs", F, READ, READ_LIST.replace("if n > 0 and total > n:", "if n > 0 and total != n:"), "C09.R2")
+M("C09", "countdown-giveback-whenever-remaining-nonzero", F, READ, READ_DOWN.replace("if n > 0 and remaining < 0:", "if n > 0 and remaining:").replace(
+    "if n > 0 and remaining:", "if n > 0 and remaining != 0:"), "C09.R2")
+M("C09", "giveback-guard-tests-data-only", F, GUARD, "        if n > 0 and data:\n", "C09.R2")
+T("C09", "twin-giveback-guard-chained-comparison", F, GUARD, "        if 0 < n < len(data):\n")
+T("C09", "twin-giveback-guard-flag", F, GUARD, "        cut = n > 0 and len(data) > n\n        if cut:\n")
+T("C09", "twin-giveback-guard-nested-surplus", F,
+  GUARD + "            # data is decoded in 4-byte words, give back what was not asked for\n            self.fh.seek(n - len(data), io.SEEK_CUR)\n            data = data[:n]\n",
+  "        if n > 0:\n            surplus = len(data) - n\n            if surplus > 0:\n                self.fh.seek(-surplus, io.SEEK_CUR)\n            data = data[:n]\n")
+T("C09", "twin-giveback-absolute-guarded-by-position", F, READ, READ_ABS.replace("if n > 0 and len(data) > n:", "if n > 0 and self.fh.tell() > start + n:"))
+T("C09", "twin-read-loop-condition-in-while", F,
+  "        while True:\n            chunk = self.fh.read(4)\n            if not chunk:\n                break\n            # log.debug(f\"{chunk}, {nonce}\")\n"
+  "            data += xor(chunk, nonce)\n            nonce = chunk\n            if n > 0 and len(data) >= n:\n                break\n",
+  "        while n < 0 or len(data) < n:\n            chunk = self.fh.read(4)\n            if len(chunk) == 0:\n                break\n"
+  "            data += xor(chunk, nonce)\n            nonce = chunk\n")
+
+# R4: nothing but the MZ validation rejects a candidate (located via the marker, the size field, or both; header words arbitrary)
+BUILD = "            xf = cls(fh, nonce_offset=found_nonce_offset)\n"
+M("C09", "candidate-needs-both-votes", F, BUILD, "            if count < 2:\n                continue\n" + BUILD, "C09.R4")
+M("C09", "candidate-must-be-size-relation-candidate", F, BUILD, "            if offset not in nonce_offsets:\n                continue\n" + BUILD, "C09.R4")
+M("C09", "candidate-with-implausible-size-word-skipped", F, "", "", "C09.R4",
+  edits=[(F, TRY, TRY_ELSE.replace("            mz = pe.find_mz_offset(cast(BinaryIO, xf))\n",
+                                   "            declared = int.from_bytes(xor(xf.nonced_filesize, xf.initial_nonce), \"little\")\n            plausible = 0 < declared < 0x1000000\n"
+                                   "            if not plausible:\n                continue\n            mz = pe.find_mz_offset(cast(BinaryIO, xf))\n"))])
+M("C09", "candidate-with-zero-nonce-ends-search", F, BUILD, BUILD + "            if xf.initial_nonce == bytes(4):\n                break\n", "C09.R4")
+# not decided (silent): tests on the candidate offset / on how much of the header is there
+T("C09", "twin-negative-candidate-skipped", F, BUILD, "            if offset < 0:\n                continue\n" + BUILD)
+T("C09", "twin-candidate-without-complete-header-skipped", F, BUILD, BUILD + "            if len(xf.nonced_filesize) < 4:\n                continue\n")
